@@ -304,7 +304,7 @@ func (s *Solver) Solve(o *Obligation) {
 	// one at a time with three times the budget before reporting them undischarged.
 	if best.status == "timeout" && !o.Smoke {
 		s.mu.Lock()
-		retry := s.retries < 6
+		retry := s.retries < 6 && os.Getenv("GOVC_NORETRY") == ""
 		if retry {
 			s.retries++
 		}
